@@ -1136,7 +1136,7 @@ func (s *State) printNetspocCmd(c *cmd) string {
 func getPrintableCmd(c *cmd, cf *Config) string {
 	p := c.parsed
 	p = strings.Replace(p, "$NAME", c.name, 1)
-	p = strings.Replace(p, "$SEQ", strconv.Itoa(c.seq), 1)
+	seq := c.seq
 	for i, r := range c.ref {
 		prefix := c.typ.ref[i]
 		// Leave name unchanged, if referenced command is unknown
@@ -1144,9 +1144,16 @@ func getPrintableCmd(c *cmd, cf *Config) string {
 		name := r
 		if l := cf.lookup[prefix][r]; len(l) > 0 {
 			name = l[0].name
+			// Unnamed command "tunnel-group-map" or "certificate-group-map"
+			// uses seq num of referenced certificate map,
+			// which may have been found on device with different seq num.
+			if c.name == "" && prefix == "crypto ca certificate map" {
+				seq = l[0].seq
+			}
 		}
 		p = strings.Replace(p, "$REF", name, 1)
 	}
+	p = strings.Replace(p, "$SEQ", strconv.Itoa(seq), 1)
 	return p
 }
 
